@@ -1018,15 +1018,18 @@ class Gen:
         L0 = k * mf - 300
         if send(L0) is None or self.halted:
             return
-        b2 = send(L0)
+        b2 = send(L0 + 1)           # (another value: an identical field could come out of the dynamic table as one byte)
         if b2 is None or self.halted:
             return
+        overhead = b2 - (L0 + 1)
+        if not (0 <= overhead <= 200):
+            return                  # not the plain literal encoding this recipe counts on
         target = k * mf
         for j in rng.sample(range(-7, 4), rng.choice([3, 5, 8])):
             if self.halted:
                 return
-            L = L0 + (target - b2) + j
-            if L > 0:
+            L = target - overhead + j
+            if L > 0 and (lim is None or L + 400 <= lim):
                 send(L)
 
     def _op_prio(self, ep, e, trk, live):
